@@ -20,6 +20,7 @@ SUMMARISED = {
     ('jedi.inference.filters', 'AbstractFilter._filter'): 'C03: with a position limit only names that START before it are kept (strictly); without one all names',
     ('jedi.inference.value.instance', 'SelfAttributeFilter._is_in_right_scope'): 'C04: a `self.x = ...` is an attribute of the instance exactly when its receiver resolves (goto) to the first parameter of a function of this class - closures nested in a method included; nothing else decides',
     ('jedi.api.refactoring.extract', '_get_indentation'): 'C07: the indentation given to a replacement statement is the text of the original indentation (last line of the first leaf\'s prefix), not a re-synthesised string',
+    ('jedi.inference.star_args', '_goes_to_param_name'): 'C11: a `*args`/`**kwargs` usage forwards the wrapper\'s own parameter only if goto on that very name leads back to the parameter (a re-bound `kwargs` is not a pass-through); no syntactic shortcut',
     ('jedi.api.project', 'Project.load'): 'C20: load accepts exactly the version that save writes and builds the project from the stored settings',
 }
 _cache = None
